@@ -173,7 +173,7 @@ PROPS = {
                 'Some(n) iff "wal-" + 20 ASCII digits fitting u64, n = that value (K-fname: byte 4 a char boundary; K-fname-nb: byte 4 a continuation byte -> None without panic); other lengths -> None (K-fname-len); filename() round trip (E-fname-rt: bounded native enumeration; format! does not finish in CBMC). '
                 'FS effects: Directory::gc (verified) removes only files popped from the tracker (O-C06-gc-prefix) and names them with filepath(dir, tracked number) (O-C17-remove-path); '
                 'structural obligations over the whole crate: remove_file/rename/... occur only in Directory::gc (O-C17-remove-site), files are opened/created only in create_file, Directory::open_file and sync_directory '
-                '(O-C17-open-sites), each through filepath(dir, tracked number) (O-C17-create-path, O-C17-open-path). Directory::open is VERIFIED (O-C17-open-listing): over the ghost listing of the directory, the tracker holds exactly the numbers of the entries that are regular files (the entry itself, not a symlink target) whose name is valid UTF-8 and parses as a WAL name -- nothing else in the directory is ever tracked, hence read, written or removed; file 0 is created only when no such entry exists.',
+                '(O-C17-open-sites), each through filepath(dir, tracked number) (O-C17-create-path, O-C17-open-path). Directory::open is VERIFIED (O-C17-open-listing): over the ghost listing of the directory, the tracker holds exactly the numbers of the entries that are regular files (the entry itself, not a symlink target) whose name is valid UTF-8 and parses as a WAL name -- nothing else in the directory is ever tracked, hence read, written or removed; file 0 is created only when no such entry exists. Ownership invariant tracked_present (part of RollingWriter::wr_wf and RollingReader::rd_wf): every tracked number names a WAL file that Directory::open listed or create_file created (create_new); BlockWrite::write keeps wr_wf also when it FAILS (O-BW-write-wf-kept) -- this is the obligation that failed on the unrepaired tree (finding F4: a number whose file could not be created stayed tracked, and a retried write wrote into a foreign file through a symlink).',
         kani_quick=['K-fname', 'K-fname-nb', 'K-fname-len', 'E-fname-rt'], kani_thorough=[],
         trusted=['Kani/CBMC', 'filepath = dir.join(filename()) (Path::join)', 'the link between the Verus contract of filename_to_position (A-f2p: result == parse_wal_name(chars)) and what Kani decides over bytes (ASCII: one byte per char); names longer than 32 bytes are outside K-fname-len', 'std contracts of read_dir / DirEntry / FileType / OsStr (assumed, spec/std_specs.rs)'],
         not_decided=['that the OS listing is what is on disk; concurrent modification of the directory'],
